@@ -23,11 +23,11 @@ type JV struct {
 	Vals []*JV
 }
 
-func jvNull() *JV          { return &JV{Kind: "null"} }
-func jvStr(s string) *JV   { return &JV{Kind: "str", S: s} }
-func jvNum(f float64) *JV  { return &JV{Kind: "num", N: f} }
-func jvBool(b bool) *JV    { return &JV{Kind: "bool", B: b} }
-func jvArr(xs []*JV) *JV   { return &JV{Kind: "arr", Arr: xs} }
+func jvNull() *JV                 { return &JV{Kind: "null"} }
+func jvStr(s string) *JV          { return &JV{Kind: "str", S: s} }
+func jvNum(f float64) *JV         { return &JV{Kind: "num", N: f} }
+func jvBool(b bool) *JV           { return &JV{Kind: "bool", B: b} }
+func jvArr(xs []*JV) *JV          { return &JV{Kind: "arr", Arr: xs} }
 func (o *JV) set(k string, v *JV) { o.Keys = append(o.Keys, k); o.Vals = append(o.Vals, v) }
 
 // Canon renders the value canonically: key order and item order preserved, numbers by exact value.
@@ -183,15 +183,15 @@ func (o Obs) String() string {
 func (o Obs) Equal(p Obs) bool { return o.String() == p.String() }
 
 var fixedMessages = map[string]string{
-	"Null result for non-null field.":                 "nullNonNull",
-	"Result is not a list.":                           "notList",
-	"Unexpected result: invalid scalar result value":  "scalarResult",
-	"Unable to determine object type.":                "noObjectType",
-	"Multiple matching operations.":                   "multipleOps",
-	"No matching operations.":                         "noOp",
-	"This schema cannot perform queries.":             "cannotPerform:query",
-	"This schema cannot perform mutations.":           "cannotPerform:mutation",
-	"This schema cannot perform subscriptions.":       "cannotPerform:subscription",
+	"Null result for non-null field.":                "nullNonNull",
+	"Result is not a list.":                          "notList",
+	"Unexpected result: invalid scalar result value": "scalarResult",
+	"Unable to determine object type.":               "noObjectType",
+	"Multiple matching operations.":                  "multipleOps",
+	"No matching operations.":                        "noOp",
+	"This schema cannot perform queries.":            "cannotPerform:query",
+	"This schema cannot perform mutations.":          "cannotPerform:mutation",
+	"This schema cannot perform subscriptions.":      "cannotPerform:subscription",
 }
 
 // classify maps a real error message onto the model's message classes. Every class but
@@ -411,12 +411,12 @@ func errsFromSexp(x hx.Sexp) ([]ObsErr, error) {
 
 // ModelReply is the decoded driver answer: the model's observable and the Lean reference's.
 type ModelReply struct {
-	Stuck    string
-	Model    Obs
-	SpecKind string // executed | requestError | stuck
-	SpecData string
-	SpecAll  []ObsErr
-	SpecReq  []ObsErr
+	Stuck     string
+	Model     Obs
+	SpecKind  string // executed | requestError | stuck
+	SpecData  string
+	SpecAll   []ObsErr
+	SpecReq   []ObsErr
 	SpecUndef bool
 }
 
